@@ -1456,6 +1456,12 @@ class RNG:
         self.k = 0
 
     def normal(self, loc=0, scale=1, size=None):
+        shape = None
+        if isinstance(size, (tuple, list)):  # a shape: the draws fill the array in C order, as numpy's generator does
+            shape = tuple(d.__index__() if is_sym(d) else int(d) for d in size)
+            size = 1
+            for d in shape:
+                size *= d
         n = 1 if size is None else (size.__index__() if is_sym(size) else int(size))
         if self.seed is None:
             c = RNG.count[0]
@@ -1470,6 +1476,8 @@ class RNG:
         r = SA(_to_obj(xs) if xs else rnp.empty((0,), dtype=object), "f")
         if scale != 1 or loc != 0:
             r = r * scale + loc
+        if shape is not None:
+            return r.reshape(shape)
         return r if size is not None else r.a[0]
 
     def standard_normal(self, size=None, dtype=None, out=None):
@@ -1666,6 +1674,13 @@ def build_module():
     m.max = np_max
     m.min = np_min
     m.where = np_where
+    m.stack = lambda seq, axis=0: SA(rnp.stack([x.a if isinstance(x, SA) else rnp.asarray(_wrap(x), dtype=object) for x in seq], axis=axis), next((x.kind for x in seq if isinstance(x, SA)), None))
+    m.vstack = lambda seq: m.stack([x if (isinstance(x, SA) and x.ndim > 1) else x for x in seq], axis=0) if all(isinstance(x, SA) and x.ndim == 1 for x in seq) else np_concatenate(list(seq), axis=0)
+    m.take = lambda a, idx, axis=None: (a if isinstance(a, SA) else np_array(a))[idx]
+    m.compress = lambda cond, a, axis=None: (a if isinstance(a, SA) else np_array(a))[cond if isinstance(cond, SA) else np_array(cond)]
+    m.extract = lambda cond, a: (a if isinstance(a, SA) else np_array(a))[cond if isinstance(cond, SA) else np_array(cond)]
+    m.mean = lambda a, axis=None: np_sum(a, axis=axis) / (a.size if axis is None else a.shape[axis])
+    m.sort = lambda a, axis=-1, kind=None: (a if isinstance(a, SA) else np_array(a))[np_argsort(a)]
     m.copyto = np_copyto
     m.putmask = np_putmask
     m.append = np_append
